@@ -82,6 +82,13 @@ def families(m, depth, width):
     for k in range(width):
         t = m.Ite(m.LT(t, j), t, m.Plus(t, m.Int(1)))
     out.append(("int-ite-diamond", m.LE(t, j)))
+    # string operators sharing their arguments (tree size 3^width)
+    from pysmt.typing import STRING
+    s0 = m.Symbol("str_s", STRING)
+    t = s0
+    for k in range(width):
+        t = m.StrReplace(t, m.StrSubstr(t, m.Int(0), m.StrLength(t)), t)
+    out.append(("string-diamond", m.StrPrefixOf(s0, t)))
     return out
 
 
@@ -131,14 +138,17 @@ def work_check(tier, seed):
     m = env.formula_manager
     sys.setrecursionlimit(1000)
     import signal
-    limit = 20 if tier == "quick" else 90
+    # CPU seconds per operation: a guard against exponential behaviour (which never finishes), generous enough not to trip
+    # on a busy machine; super-linear growth is measured separately below
+    limit = 60 if tier == "quick" else 900
 
     class _Timeout(Exception):
         pass
 
     def _alarm(*a):
         raise _Timeout()
-    signal.signal(signal.SIGALRM, _alarm)
+    # CPU time of this process, not wall time: the verdict must not depend on what else the machine is doing
+    signal.signal(signal.SIGPROF, _alarm)
     t0 = time.time()
     try:
         fams = families(m, depth, width)
@@ -174,17 +184,33 @@ def work_check(tier, seed):
             if back is not f:
                 raise AssertionError("re-parsed formula is a different object")
         ops.append(("dag-print-and-reparse", dagprint))
+
+        def rejected():
+            # an ill-typed construction on top of the DAG must be rejected in time linear in the DAG too (its error
+            # message included)
+            from pysmt.exceptions import PysmtTypeError
+            t = f.get_type()
+            try:
+                if t.is_bool_type():
+                    m.Plus(f, m.Int(1))
+                else:
+                    m.And(f, m.TRUE())
+            except (PysmtTypeError, AttributeError):
+                return
+            raise AssertionError("ill-typed construction accepted")
+        ops.append(("ill-typed-construction-rejected", rejected))
         for oname, fn in ops:
             n += 1
             with Counter() as c:
                 t1 = time.time()
-                signal.alarm(limit)
+                # (the recorded finding on int-diamond / simplify never finishes: a short limit is enough to see it)
+                signal.setitimer(signal.ITIMER_PROF, 20 if (name == "int-diamond" and oname == "simplify") else limit)
                 try:
                     with warnings.catch_warnings():
                         warnings.simplefilter("ignore")
                         fn()
                 except _Timeout:
-                    signal.alarm(0)
+                    signal.setitimer(signal.ITIMER_PROF, 0)
                     key = "time-not-linear-in-dag"
                     if name == "int-diamond" and oname == "simplify":
                         key = "simplifier-flattening"       # recorded finding
@@ -197,7 +223,7 @@ def work_check(tier, seed):
                     viol.append({"key": "operation-failed", "family": name, "operation": oname, "error": repr(e)[:200]})
                     continue
                 finally:
-                    signal.alarm(0)
+                    signal.setitimer(signal.ITIMER_PROF, 0)
                 dt = time.time() - t1
             # each distinct sub-formula is handled a bounded number of times: the callbacks run at most 8 times per node in
             # total (rewriters use helper walkers), and the wall time is proportional to the DAG, not to the tree
@@ -205,12 +231,33 @@ def work_check(tier, seed):
                 viol.append({"key": "work-not-linear-in-dag", "family": name, "operation": oname, "dag_size": size, "callbacks": c.n})
         if len(samples) < 3:
             samples.append("%s: %d distinct nodes" % (name, size))
+    # growth: the same operation on the Boolean chain at depth d and 4d (CPU time); linear work gives a factor of about 4
+    pop_env()
+    d0 = 600 if tier == "quick" else 1500
+    times = {}
+    for d in (d0, 4 * d0):
+        e2 = fresh()
+        m2 = e2.formula_manager
+        f2 = families(m2, d, 4)[0][1]
+        for oname, fn in (("cnf", lambda: cnf(f2, e2)), ("nnf", lambda: nnf(f2, e2)), ("simplify", lambda: f2.simplify()),
+                          ("prenex", lambda: prenex_normal_form(f2, e2)), ("aig", lambda: aig(f2, e2))):
+            with warnings.catch_warnings():
+                warnings.simplefilter("ignore")
+                t1 = time.process_time()
+                fn()
+                times.setdefault(oname, []).append(time.process_time() - t1)
+        pop_env()
+        n += 1
+    for oname, (a, b) in times.items():
+        if b > 1.0 and b > 10 * max(a, 0.01):
+            viol.append({"key": "%s-time-quadratic-in-depth" % oname, "family": "bool-chain", "operation": oname,
+                         "cpu_seconds": {"depth %d" % d0: round(a, 2), "depth %d" % (4 * d0): round(b, 2)}})
     return {"name": "work", "bounded": True, "evaluations": n, "distinct_nontrivial": n,
-            "rule": "12 formula families (chains of depth %d over Boolean / arithmetic / bit-vector operators, ITE of every sort and "
-                    "array stores; diamonds of width %d whose tree expansion has 2^%d nodes) x 14 operations (type check, simplify, "
+            "rule": "13 formula families (chains of depth %d over Boolean / arithmetic / bit-vector operators, ITE of every sort, string operators and "
+                    "array stores; diamonds of width %d whose tree expansion has 2^%d nodes) x 15 operations (type check, rejection of an ill-typed construction on top, simplify, "
                     "substitute, free symbols, atoms, size, quantifier-freeness, logic detection, sorts, NNF, AIG, prenex, CNF, "
                     "DAG print + re-parse) under the default recursion limit of 1000: no RecursionError, callbacks executed "
-                    "<= 25 x distinct nodes, each within %d s" % (depth, width, width, limit),
+                    "<= 25 x distinct nodes, each within %d s of CPU time; growth of CNF / NNF / simplify / prenex / AIG on the Boolean chain from depth d to 4d measured in CPU time (a factor above 10 is reported)" % (depth, width, width, limit),
             "samples": samples, "violations": viol[:8]}
 
 
@@ -254,7 +301,19 @@ def observations(env, f, rng_seed):
         if val is not None:
             put("substitute", lambda: skey(f.substitute({s0: val})))
     put("print", lambda: f.serialize())
+    # a substitution under a binder with the SAME keys as one made earlier in the history but other values
+    hx, hy = m.Symbol("hist_x", INT), m.Symbol("hist_y", INT)
+    hq = m.And(m.ForAll([hx], m.LT(m.Int(0), m.Plus(hx, hy))), m.Exists([hx], m.LE(hy, hx)))
+    put("substitute-under-binder", lambda: hq.substitute({hy: m.Int(2)}).serialize())
     return out
+
+
+def _history_substitutions(env):
+    m = env.formula_manager
+    hx, hy = m.Symbol("hist_x", INT), m.Symbol("hist_y", INT)
+    hq = m.And(m.ForAll([hx], m.LT(m.Int(0), m.Plus(hx, hy))), m.Exists([hx], m.LE(hy, hx)))
+    hq.substitute({hy: m.Int(1)})
+    hq.substitute({hy: m.Plus(hy, m.Int(7))})
 
 
 def history_check(tier, seed):
@@ -284,6 +343,7 @@ def history_check(tier, seed):
             pop_env()
             continue
         # history: queries / transformations on other formulas that share sub-DAGs with f
+        _history_substitutions(env)
         for h in hist + [x for x in list(f.args())[:2]]:
             try:
                 with warnings.catch_warnings():
@@ -372,6 +432,9 @@ def failure_check(tier, seed):
                 attempts.append(lambda: env.simplifier.simplify(None))
                 attempts.append(lambda: f.substitute({f: m.Int(3)}))
                 attempts.append(lambda: env.stc.get_type(m.create_node(op.PLUS, (m.TRUE(), m.Int(1)))))
+                # a walk that fails exactly at its root (the children are done, the work list is already empty)
+                attempts.append(lambda: m.Plus(m.Symbol("root_a", INT), m.Symbol("root_b", INT)).substitute({m.Symbol("root_a", INT): m.Real(1)}))
+                attempts.append(lambda: m.LT(m.Symbol("root_a", INT), m.Int(1)).substitute({m.Symbol("root_a", INT): m.TRUE()}))
                 for a in attempts:
                     try:
                         with warnings.catch_warnings():
@@ -382,6 +445,14 @@ def failure_check(tier, seed):
             o = []
             for p in probes:
                 o.append(observations(env, p, t))
+            ra, rb = m.Symbol("root_a", INT), m.Symbol("root_b", INT)
+            def _obs(fn):
+                try:
+                    return str(fn())
+                except Exception as e:
+                    return "raises %s: %s" % (type(e).__name__, str(e)[:120])
+            o.append([_obs(lambda: ra.substitute({rb: m.Int(5)})), _obs(lambda: m.LE(m.Plus(ra, m.Int(1)), rb).substitute({ra: m.Int(5)})),
+                      _obs(lambda: m.Plus(ra, rb).substitute({rb: m.Int(2)}))])
             # the parser object itself after a failing script
             p1 = SmtLibParser(env)
             if twin == 1:
@@ -409,12 +480,13 @@ def failure_check(tier, seed):
                 viol.append({"key": "failing-call-left-a-trace", "query": k[0], "untouched": str(obs[0][idx][k[0]])[:300],
                              "after_failures": str(obs[1][idx].get(k[0]))[:300]})
             else:
-                viol.append({"key": "failing-call-left-a-trace", "query": "parser", "untouched": str(obs[0][idx])[:300],
+                viol.append({"key": "failing-call-left-a-trace", "query": "parser" if idx == len(obs[0]) - 1 else "substitutions after a walk that failed at its root",
+                             "untouched": str(obs[0][idx])[:300],
                              "after_failures": str(obs[1][idx])[:300]})
             break
     return {"name": "failure", "bounded": True, "evaluations": n, "distinct_nontrivial": nfail,
-            "rule": "%d pairs of twin environments built identically; in one of them ~12 failing calls are injected (ill-typed "
-                    "substitutions at several depths, ill-typed constructions, symbol redefinition, malformed / ill-typed scripts, "
+            "rule": "%d pairs of twin environments built identically; in one of them ~14 failing calls are injected (ill-typed "
+                    "substitutions at several depths and exactly at the root, ill-typed constructions, symbol redefinition, malformed / ill-typed scripts, "
                     "bad arguments to services, a hand-made ill-typed node; %d raised in total); afterwards 18 observations of 3 "
                     "probe formulas and a parse on the used parser must be equal in both twins" % (trials, nfail),
             "samples": samples, "violations": viol}
